@@ -329,6 +329,24 @@ pub broadcast proof fn lemma_abs_kids_mirror(s: Seq<Necessity<Element<String>>>)
     lemma_abs_kids_index(s);
     if s.len() > 0 { lemma_abs_n_fields(s[0]); }
 }
+/// exec view of lemma_build_names: whatever tree a successful build below `root` yields, it still has a child for every
+/// child name of `root` (building marks optional, merges and adds; it never drops a name)
+pub proof fn lemma_names_survive(root: Element<String>, p: Seq<RdItem>)
+    ensures
+        forall|res: Element<String>, m: String|
+            g_build(abs(root), p, Seq::empty()).0 == Some(abs(res)) && kid_idx(root.children@, m) < root.children@.len()
+                ==> #[trigger] kid_idx(res.children@, m) < res.children@.len(),
+{
+    assert forall|res: Element<String>, m: String|
+        g_build(abs(root), p, Seq::empty()).0 == Some(abs(res)) && kid_idx(root.children@, m) < root.children@.len()
+            implies #[trigger] kid_idx(res.children@, m) < res.children@.len() by {
+        lemma_build_names(abs(root), p, Seq::empty(), m);
+        lemma_idx_agree(root.children@, m);
+        lemma_idx_agree(res.children@, m);
+        lemma_abs_kids_index(root.children@);
+        lemma_abs_kids_index(res.children@);
+    }
+}
 pub broadcast group group_entry_points {
     lemma_abs_fresh,
     lemma_abs_wrapper,
